@@ -308,6 +308,34 @@ def check_kind(kind, part0, part1, vals0, vals1, sew):
     return None
 
 
+def bfs_min(b, n, d):
+    """what `vertex_id_transac` computes: the smallest dart reachable from d through the five images (no inverses)"""
+    seen, todo = {d}, [d]
+    while todo:
+        x = todo.pop()
+        for path in GEN["v"]:
+            y = x
+            for i in path:
+                y = b[i][y] if y < n else 0
+            if 0 < y < n and y not in seen:
+                seen.add(y)
+                todo.append(y)
+    return min(seen)
+
+
+def one_sew_signature(b_open, n, dim, l, r, cell_of):
+    """tag of the (proposed) known finding `one-sew-on-3-sewn-face`: the call is a 1-sew/1-unsew, the face of l is 3-sewn,
+    and on the map where that face is open (before the 1-sew / after the 1-unsew) the vertex id that one_sew/one_unsew
+    compute for one of the darts they start from (r, β3(l), β2(l)) is not the smallest dart of that dart's vertex cell:
+    `vertex_id_transac` has no inverse of β3∘β2 and cannot derive it through the open 3-sewn face"""
+    if dim != 1 or (b_open[3][l] == 0 and b_open[3][r] == 0):
+        return ""
+    for d in (r, b_open[3][l], b_open[2][l]):
+        if d and bfs_min(b_open, n, d) != min(cell_of[d]):
+            return "[1-sew-on-3-sewn-face] "
+    return ""
+
+
 def fully_embedded(s, b, n, parts):
     """every vertex has coordinates; the default-law storages (ETerm, VDef) are defined at every cell id (their laws
     refuse None); the other laws accept None"""
@@ -327,6 +355,13 @@ def fully_embedded(s, b, n, parts):
 # ---------------------------------------------------------------------------------------------
 
 def oracle_c05(case, li):
+    try:
+        return _oracle_c05(case, li)
+    except Exception as e:      # a bug of this file must not look like a pass
+        return f"[oracle-crash] {type(e).__name__}: {e}"
+
+
+def _oracle_c05(case, li):
     if case.oracle != "c05":
         return None
     if any(x.startswith("<missing") for x in li):
@@ -335,7 +370,7 @@ def oracle_c05(case, li):
     if len(li) != len(lines):
         return f"expected {len(lines)} output lines, got {len(li)}"
     first = None         # the first checked call of the case (the one replayed as a link on the twin map)
-    last_sew = None      # for the round trip: (dim, l, idx of its post-snap, partitions before it)
+    last_sew = None      # for the round trip: (dim, darts it sewed, the snapshot after it, partitions before it)
     twin = False
     for i, (inp, out) in enumerate(zip(lines, li)):
         if inp == "# twin":
@@ -376,11 +411,16 @@ def oracle_c05(case, li):
             bump("outcome-" + " ".join(out.split()[:2]))
             if li[i - 1] != li[i + 1]:
                 return f"[unchanged] {inp}: answered {out!r} but the map changed"
-            # (3) unsew of a sewn dart on a fully embedded closed-face map must succeed
+            # (3) unsew of a sewn dart on a fully embedded closed-face map must succeed (same proviso: when a cell takes
+            # part in two separations the outcome depends on the order of the splits)
             if not sew and b0[dim][l] != 0 and closed_faces(b0, u0, n) and gens.mirror3(b0[1], b0[3]):
                 parts0 = {k: partition(k, b0, n) for k in ("v", "e")}
                 if fully_embedded(s0, b0, n, parts0):
-                    return f"[unsew-refused] {inp}: answered {out!r} on a fully embedded closed-face map (dart {l} is {dim}-sewn to {b0[dim][l]})"
+                    bh, rh = link_effect(b0, n, False, dim, l, 0)
+                    idents = identifications(b0, dim, l, rh, n)
+                    if all(proviso(idents[k], partition(k, bh, n)[1]) for k in KINDS_OF_DIM[dim]):
+                        return f"[unsew-refused] {inp}: answered {out!r} on a fully embedded closed-face map (dart {l} is {dim}-sewn to {b0[dim][l]})"
+                    bump("skipped-multi-refused")
             last_sew = None
             continue
         bump("outcome-ok")
@@ -414,18 +454,22 @@ def oracle_c05(case, li):
         P1 = {k: partition(k, b1, n) for k in ("v", "e", "f", "c")}
         for kind in KINDS_OF_DIM[dim]:
             fine = P0[kind] if sew else P1[kind]
+            if dim == 3 and kind != "f" and any(a and c and fine[1][a] == fine[1][c] for a, c in idents[kind]):
+                # ring closing / re-opening: some corner or side of the two faces is (still) shared on the other side
+                bump(f"{sig}-with-shared-{kind}-cells")
             if not proviso(idents[kind], fine[1]):
                 bump("skipped-multi")
                 bump(f"skipped-multi-{sig}-{kind}")
                 continue
             f = check_kind(kind, P0[kind], P1[kind], vals0, vals1, sew)
             if f:
-                return f"{f.split(' ')[0]} {inp}: {f.split(' ', 1)[1]}"
+                return f"{one_sew_signature(b0 if sew else b1, n, dim, l, r, (P0 if sew else P1)['v'][1])}{f.split(' ')[0]} {inp}: {f.split(' ', 1)[1]}"
         # round trip: sew immediately followed by the matching unsew restores the partitions
         if sew:
-            last_sew = (dim, l, i + 1, {k: set(P0[k][0]) for k in P0})
+            sewn = {l} if dim == 1 else {l, r} if dim == 2 else {d for pr in face_pairs(b0, l, r, n) for d in pr}
+            last_sew = (dim, sewn, li[i + 1], {k: set(P0[k][0]) for k in P0})
         else:
-            if last_sew and last_sew[0] == dim and last_sew[1] == l and last_sew[2] == i - 1:
+            if last_sew and last_sew[0] == dim and l in last_sew[1] and last_sew[2] == li[i - 1]:
                 bump("round-trips")
                 for k in ("v", "e", "f", "c"):
                     if set(P1[k][0]) != last_sew[3][k]:
@@ -458,24 +502,31 @@ def attr_lines(rng, darts, mask, pa, full_default):
     return out
 
 
-def build_lines(rng, p, mask, pv, pa, full_default, check_p=1.0, force_p=0.3):
-    """one polyhedron face by face: 1-links, one point per dart (probability pv), attributes, then the 2-sews — each
-    of them a checked call with probability check_p"""
+def build_lines(rng, ps, mask, pv, pa, full_default, check_p=1.0, force_p=0.3):
+    """the polyhedra `ps` face by face: all 1-links first (so that every face of the map is closed from then on), one
+    point per dart (probability pv) and attributes, then the 2-sews — each of them a checked call with probability
+    check_p"""
+    if not isinstance(ps, (list, tuple)):
+        ps = [ps]
     out = []
-    for ds in p.face_darts:
-        for i, a in enumerate(ds):
-            out.append(f"flink 1 {a} {ds[(i + 1) % len(ds)]}")
-    for d in p.darts:
-        if rng.random() < pv:
-            out.append("wv %d %s %s %s" % ((d,) + tuple(gens._tok(c) for c in p.origin[d])))
-    out += attr_lines(rng, p.darts, mask, pa, full_default)
-    edges = [(a, p.dart[(v, u)]) for (u, v), a in p.dart.items() if u < v]
-    rng.shuffle(edges)
-    for a, c in edges:
-        if rng.random() < 0.5:
-            a, c = c, a
-        op = f"{f_(rng, force_p)}sew 2 {a} {c}"
-        out += checked(op) if rng.random() < check_p else [op]
+    for p in ps:
+        for ds in p.face_darts:
+            for i, a in enumerate(ds):
+                out.append(f"flink 1 {a} {ds[(i + 1) % len(ds)]}")
+    for p in ps:
+        for d in p.darts:
+            if rng.random() < pv:
+                out.append("wv %d %s %s %s" % ((d,) + tuple(gens._tok(c) for c in p.origin[d])))
+        out += attr_lines(rng, p.darts, mask, pa, full_default)
+    for p in ps:
+        edges = [(a, p.dart[(v, u)]) for (u, v), a in p.dart.items() if u < v]
+        rng.shuffle(edges)
+        cp = check_p if not isinstance(check_p, (list, tuple)) else rng.choice(check_p)
+        for a, c in edges:
+            if rng.random() < 0.5:
+                a, c = c, a
+            op = f"{f_(rng, force_p)}sew 2 {a} {c}"
+            out += checked(op) if rng.random() < cp else [op]
     return out
 
 
@@ -567,9 +618,7 @@ def polyhedra_cases(count, rng, names=None):
         full = rng.random() < 0.75
         pv = rng.choice([1.0, 1.0, 0.85, 0.6])
         pa = rng.choice([1.0, 0.5, 0.5, 0.0])
-        lines = [f"new 3 {n} {mask}"]
-        for p in ps:
-            lines += build_lines(rng, p, mask, pv, pa, full, check_p=rng.choice([1.0, 0.3, 0.0]))
+        lines = [f"new 3 {n} {mask}"] + build_lines(rng, ps, mask, pv, pa, full, check_p=[1.0, 0.3, 0.0])
         sewn3 = []
         rng.shuffle(glue)
         mode = rng.random()
@@ -609,9 +658,7 @@ def all_glue_pairs_cases(rng, mask=31):
     cases = []
     for name, pa, pb in gens.cell_pairs():
         ps, n, glue = complex_of([pa, pb])
-        base = [f"new 3 {n} {mask}"]
-        for p in ps:
-            base += build_lines(rng, p, mask, 1.0, 0.6, True, check_p=0.0, force_p=1.0)
+        base = [f"new 3 {n} {mask}"] + build_lines(rng, ps, mask, 1.0, 0.6, True, check_p=0.0, force_p=1.0)
         for g in glue:
             face = sorted({d for pair in g for d in pair})
             for a, c in g:
@@ -690,9 +737,8 @@ def histories(count, rng, maxlen=14):
         else:
             name, pa, pb = rng.choice(pairs)
             ps, n, glue = complex_of([pa, pb])
-            lines = [f"new 3 {n} {mask}"]
-            for p in ps:
-                lines += build_lines(rng, p, mask, rng.choice([1.0, 0.8]), rng.choice([1.0, 0.5]), rng.random() < 0.8, check_p=0.0)
+            lines = [f"new 3 {n} {mask}"] + build_lines(rng, ps, mask, rng.choice([1.0, 0.8]), rng.choice([1.0, 0.5]),
+                                                         rng.random() < 0.8, check_p=0.0)
             if glue and rng.random() < 0.7:
                 a, c = rng.choice(rng.choice(glue))
                 lines += checked(f"{f_(rng)}sew 3 {a} {c}")
@@ -715,33 +761,35 @@ def run(tier, seed):
         r["stats"]["exhaustive"] = True
         parts.append(("every coinciding dart pair of every pair of cells: 3-sew, 3-unsew", r))
         parts.append(("polyhedra complexes (pairs, rings, rows): checked builds, gluings, round trips",
-                      hv.campaign(polyhedra_cases(700, rng), oracle_c05)))
-        r = hv.campaign(faces_cases(rng, 2, None, 2), oracle_c05)
+                      hv.campaign(polyhedra_cases(1400, rng), oracle_c05)))
+        r = hv.campaign(faces_cases(rng, 2, None, 3), oracle_c05)
         r["stats"]["exhaustive"] = True
         parts.append(("closed glued faces <=2 faces x every sew/unsew, twin link", r))
-        parts.append(("closed glued faces 3 faces (sample)", hv.campaign(faces_cases(rng, 3, 40, 1, frac=0.5), oracle_c05)))
-        parts.append(("random sew/unsew histories", hv.campaign(histories(1500, rng), oracle_c05)))
+        parts.append(("closed glued faces 3 faces (sample)", hv.campaign(faces_cases(rng, 3, 40, 1, frac=0.6), oracle_c05)))
+        parts.append(("random sew/unsew histories", hv.campaign(histories(2500, rng), oracle_c05)))
     else:
         r = hv.campaign(all_glue_pairs_cases(rng) + all_glue_pairs_cases(rng, mask=13), oracle_c05)
         r["stats"]["exhaustive"] = True
         parts.append(("every coinciding dart pair of every pair of cells: 3-sew, 3-unsew", r))
         parts.append(("polyhedra complexes (pairs, rings, rows): checked builds, gluings, round trips",
-                      hv.campaign(polyhedra_cases(7000, rng), oracle_c05)))
-        r = hv.campaign(faces_cases(rng, 2, None, 12), oracle_c05)
+                      hv.campaign(polyhedra_cases(14000, rng), oracle_c05)))
+        r = hv.campaign(faces_cases(rng, 2, None, 25), oracle_c05)
         r["stats"]["exhaustive"] = True
         parts.append(("closed glued faces <=2 faces x every sew/unsew, twin link", r))
-        parts.append(("closed glued faces 3 faces (sample)", hv.campaign(faces_cases(rng, 3, 120, 4), oracle_c05)))
-        parts.append(("random sew/unsew histories", hv.campaign(histories(15000, rng, maxlen=25), oracle_c05)))
+        parts.append(("closed glued faces 3 faces (sample)", hv.campaign(faces_cases(rng, 3, 120, 3), oracle_c05)))
+        parts.append(("random sew/unsew histories", hv.campaign(histories(25000, rng, maxlen=20), oracle_c05)))
     res = hv.merge_results(parts)
     res["stats"]["oracle_counts"] = dict(sorted(STATS.items()))
     return res
 
 
 def matches(known, v):
-    """a known finding of C05 with a matcher {'kind': 'oracle-tag', 'tag': '[...]', 'contains': '...'} absorbs oracle failures
-    (never model/implementation disagreements) whose text starts with that tag and contains the given substring"""
-    m = known.get("matcher") or {}
-    if v.get("kind") != "oracle" or m.get("kind") != "oracle-tag":
+    """a known finding of C05 with matcher kind `one-sew-on-3-sewn-face` absorbs oracle failures (never model/implementation
+    disagreements) of the data clauses of a 1-sew/1-unsew carrying the tag computed by `one_sew_signature`; anything else
+    stays a violation"""
+    if v.get("kind") != "oracle":
         return False
     fail = (v.get("replay") or {}).get("oracle_failure") or ""
-    return bool(m.get("tag")) and fail.startswith(m["tag"]) and m.get("contains", "") in fail
+    if (known.get("matcher") or {}).get("kind") == "one-sew-on-3-sewn-face":
+        return fail.startswith("[1-sew-on-3-sewn-face] ")
+    return False
